@@ -53,6 +53,9 @@ func scenarioExprsW(thorough bool, wf int) []string {
 		"[`1`, 'a']", "{kind: 'fixed'}", "length([`1`, `2`])", "[`null`, @]", "a || nosuch(a)", "b[*].abs(@, @)", "contains(a, `3`)", "contains(b, 'a')", "a[?contains(@.k || `[]`, `1`)]",
 		"a[?nosuch(@)] || length(@)", "b[?nosuch(@)] || length(@)", "a && abs(a, a) || length(@)", "[?nosuch(@)]", "b || nosuch(a)", "a[?k > `1`] || nosuch(@)", "*.abs(@)", "*.k", "a[*].abs(k)", "a[?k >= `0`]", "a[?k >= `0`].t",
 		"sum(a)", "max(b)", "sort(b)", "[*].sum(@)", "a[*].to_array(k) | [*][0]", "join(',', b)",
+		// a step larger than some documents' arrays and smaller than others'; by-functions whose keys are
+		// inconsistent in one document and fine in the next (state left behind by the failing call)
+		"[::5]", "a[::5]", "[::-5]", "a[::-5]", "[::3]", "a[1::4]", "sort_by(@, &k)", "max_by(@, &k)", "min_by(a, &k)", "sort_by(a, &t)", "max_by(a, &t)", "sort(b)", "max(b)",
 		"sort_by(a, &k) | sort_by(@, &t)", "sort_by(sort_by(a, &k), &t)", "a[*].sort(@)", "[sort_by(a, &k), a]", "sort_by(a, &k)[0].k",
 	} {
 		add(s)
@@ -105,6 +108,7 @@ var historyDocs = univ.Js(
 	`{"a":{"b":{"c":1}},"b":2}`, `null`, `{"a":"x","b":"y"}`, `[{"k":1},{"k":"a"}]`,
 	`{"c":1}`, `{"d":[2],"a":[1,2],"b":[1,3]}`,
 	`{"a":[9,8,7,6,5,4,3,2,1,0],"b":["j","i","h","g","f","e","d","c","b","a"]}`,
+	`{"a":[{"k":1,"t":0},{"k":"x","t":1},{"k":2,"t":"y"}],"b":[1,"a"]}`, `[9,8,7,6,5,4,3,2,1,0,11,12]`,
 )
 
 func resKey(res interface{}, err error, pn *impl.Panic) string {
